@@ -499,9 +499,22 @@ func f64Drv[V any](vo valOps[V]) TreeAPI {
 
 func clone(b []byte) []byte { return append([]byte{}, b...) }
 
+// substrKeys makes string keys substrings of much larger, freshly built strings
+// (a key cut out of a message): a tree that keeps a reference to the key's bytes
+// instead of copying them keeps the whole large string alive (C17).
+var substrKeys bool
+
+func mkString(b []byte) string {
+	if substrKeys {
+		big := strings.Repeat("#", 32<<10) + string(b)
+		return big[32<<10:]
+	}
+	return string(b)
+}
+
 func alphaStrDrv[V any](vo valOps[V]) TreeAPI {
 	return &drv[string, V]{t: art.NewAlphaSortedTree[string, V](), vo: vo,
-		mk: func(b []byte) string { return string(b) },
+		mk: mkString,
 		un: func(k string) []byte { return []byte(k) }}
 }
 
@@ -520,7 +533,7 @@ func collStrDrv[V any](coll string, vo valOps[V]) TreeAPI {
 		t = art.NewCollationSortedTree[string, V](art.WithCollator[string, V](newCollator(coll)))
 	}
 	return &drv[string, V]{t: t, vo: vo,
-		mk: func(b []byte) string { return string(b) },
+		mk: mkString,
 		un: func(k string) []byte { return []byte(k) }}
 }
 
